@@ -70,7 +70,7 @@ var (
 		p.Name = "verdict"
 		p.PGroup, p.PBypass, p.PFailSeqAct, p.PFailCheckAct, p.PContFail = 40, 15, 18, 12, 25
 		p.PGate, p.BigBlocks, p.MaxSeqs = 35, true, 6
-		p.ContDelays = []int{0, 0, 1, 2, 3}
+		p.ContDelays = []int{0, 0, 1, 2, 3, 4}
 	})
 	pfAttempts = withProfile(lab.ProfileDefault, func(p *lab.Profile) {
 		p.Name = "attempts"
@@ -86,7 +86,7 @@ var (
 		p.Name = "cont-deferred"
 		p.PGroup, p.PBypass, p.PFailCheckAct, p.PContFail, p.MaxContFailRun = 55, 10, 12, 45, 6
 		p.PFailSeqAct, p.PGate, p.DeferredRetries0 = 15, 60, true
-		p.ContDelays = []int{0, 0, 1, 2}
+		p.ContDelays = []int{0, 0, 1, 2, 4}
 		p.PLongHold = 3
 	})
 	pfDurability = withProfile(lab.ProfileDefault, func(p *lab.Profile) {
